@@ -343,7 +343,11 @@ def nest_params(entry, rng, wide):
     ms = models()
     fa, fb = ms[entry['A']], ms[entry['B']]
     na, nb = list(fa.__param_names__), list(fb.__param_names__)
-    pa = dict(zip(na, corner_params(rng, na) if wide == 'corner' else draw_params(rng, na, wide)))
+    if isinstance(wide, str) and wide.startswith('tie:'):
+        drawn = tie_params(rng, na, wide[4:])[0]
+    else:
+        drawn = corner_params(rng, na) if wide == 'corner' else draw_params(rng, na, wide)
+    pa = dict(zip(na, drawn))
     for n, v in entry['point'].items():
         if isinstance(v, str):
             pa[n] = None
@@ -403,7 +407,7 @@ def realize(g, tid):
         f = ms[g['model']]
         names = list(f.__param_names__)
         if not is_mscore(f):
-            ev += evaluate(g['model'], f, g['params'], g['ns'], g['pts'], tid, 'base', first=True, fine=True)
+            ev += evaluate(g['model'], f, g['params'], g['ns'], g['pts'], tid, 'base', first=True, fine=g.get('fine', True))
             if g.get('perturb'):
                 # the programs of the base and of the perturbed parameter vectors are compared on a coarse grid (the events do not depend on it)
                 ev += evaluate(g['model'], f, g['params'], g['ns'], PTS_PROBE[len(g['ns'])], tid, 'p', fine=False)
@@ -440,7 +444,9 @@ def realize(g, tid):
 
 
 def site_of(g):
-    return g['model'] if g['kind'] in ('model', 'swap', 'edge') else '%s>%s' % (g['A'], g['B'])
+    site = g['model'] if g['kind'] in ('model', 'swap', 'edge') else '%s>%s' % (g['A'], g['B'])
+    # the groups at tied parameter vectors are a failure class of their own (a generic vector never takes an 'equal values' path)
+    return site + '@ties' if g.get('tie') else site
 
 
 # --------------------------------------------------------------------------
@@ -465,6 +471,20 @@ def draw_swap_params(rng, names):
             p.append(v)
         if len(set(p)) == len(p):
             return p
+
+
+def swap_group(e, names, p, ns):
+    """The swap group of table entry e at the parameter vector p."""
+    P = len(e['perm'])
+    # the swapped call: the parameter named n receives the original value of the name that maps to n
+    inv = {e['map'].get(n, n): n for n in names}
+    dd = dict(zip(names, p))
+    p2 = [(1.0 - dd[inv[n]]) if n in e['complement'] else dd[inv[n]] for n in names]
+    # new axis j carries the old population o with perm[o] = j; recorded as the list `axes` (old population of each new axis)
+    axes = [0] * P
+    for o in range(1, P + 1):
+        axes[e['perm'][o - 1] - 1] = o
+    return {'kind': 'swap', 'model': e['model'], 'params': p, 'swapped': p2, 'perm': axes, 'ns': ns, 'pts': 14 if P == 2 else 10}
 
 
 def rand_ns(rng, P, even=False):
@@ -525,19 +545,11 @@ def gen_groups(ctx, rng):
         names = list(f.__param_names__)
         P = len(e['perm'])
         for d in range(reps):
-            p = draw_swap_params(rng, names)
-            # the swapped call: the parameter named n receives the original value of the name that maps to n
-            inv = {e['map'].get(n, n): n for n in names}
-            dd = dict(zip(names, p))
-            p2 = [(1.0 - dd[inv[n]]) if n in e['complement'] else dd[inv[n]] for n in names]
-            ns = rand_ns(rng, P)
-            # new axis j carries the old population o with perm[o] = j; recorded as the list `axes` (old population of each new axis)
-            axes = [0] * P
-            for o in range(1, P + 1):
-                axes[e['perm'][o - 1] - 1] = o
-            groups.append({'kind': 'swap', 'model': e['model'], 'params': p, 'swapped': p2, 'perm': axes, 'ns': ns, 'pts': 14 if P == 2 else 10})
+            groups.append(swap_group(e, names, draw_swap_params(rng, names), rand_ns(rng, P)))
     # (4) the end points and special values of the documented bounds, and other ways of handing over the same values
     groups += edge_groups(ctx, rng)
+    # (5) the non-generic points inside the bounds: exactly equal sizes / durations / rates, one rate exactly 0 (own generator)
+    groups += tie_groups(ctx, random.Random(ctx.seed + 1500))
     return groups
 
 
@@ -620,6 +632,111 @@ def edge_groups(ctx, rng):
                 if set(kw) & cls:
                     evals.append(ev(slot, _with(names, base, **kw), False))
         groups.append({'kind': 'edge', 'model': q, 'ns': rand_ns(rng, P, even='inbreeding' in q), 'pts': PTS[P], 'evals': evals, 'alike': alike})
+    return groups
+
+
+# --------------------------------------------------------------------------
+# tied parameter vectors: several parameters of one class EXACTLY equal (the same float), one rate exactly 0
+# --------------------------------------------------------------------------
+TIE_VARIANTS = ('sizes', 'rates', 'm0', 'all')
+
+
+def tie_params(rng, names, variant):
+    """(vector, number of parameters forced) in the regime of draw_swap_params with
+      sizes   every size the same number and every duration the same number; rates, selection, fractions distinct
+      rates   every migration rate the same number and every selection coefficient the same number; sizes, durations distinct
+      m0      one migration rate (drawn) exactly 0.0, the others distinct and positive; every size the same number
+      all     sizes, durations, rates, selection coefficients each tied, fractions exactly 1/2
+    A class with a single parameter cannot be tied; the count tells whether the vector differs in kind from a generic draw."""
+    base = draw_swap_params(rng, names)
+    cls = ['frac' if pclass(n) in ('s', 'f', 'F') else pclass(n) for n in names]
+    count = {c: cls.count(c) for c in set(cls)}
+    first = {c: base[cls.index(c)] for c in count}
+    kw, forced = {}, 0
+
+    def tie(c):
+        nonlocal forced
+        if count.get(c, 0) >= 2:
+            kw[c] = first[c]
+            forced += count[c]
+    if variant in ('sizes', 'all'):
+        tie('nu')
+        tie('T')
+    if variant in ('rates', 'all'):
+        tie('m')
+        tie('gamma')
+    if variant == 'all' and 'frac' in count:
+        kw['frac'] = 0.5
+        forced += count['frac']
+    if variant == 'm0':
+        tie('nu')
+        if 'm' in count:
+            k0 = rng.randrange(count['m'])
+            mvals = [v for v, c in zip(base, cls) if c == 'm']
+            kw['m'] = lambda k: 0.0 if k == k0 else mvals[k]
+            forced += 1
+        else:
+            forced = 0
+    return _with(names, base, **kw), forced
+
+
+def tie_groups(ctx, rng):
+    """Deterministic block (own generator): every relation of the specification evaluated at tied parameter vectors.
+      swap   every model of the swap table (quick: its first relabelling; thorough: every relabelling) at the 'sizes' vector and, in quick for the
+             two-population models, at one further variant in rotation (thorough: every variant) - with equal sizes and unequal rates
+             the swapped call differs from the original in the rates only
+      nest   the nestings with the free parameters tied (quick: the first nesting of every model as A, variants in rotation; thorough: all)
+      model  the full clause set at the 'sizes' vector for every model that is not closed under a relabelling"""
+    ms = models()
+    table = load_table()
+    groups = []
+    rot = 0
+    seen = set()
+    for e in table['swaps']:
+        if ctx.quick and e['model'] in seen:
+            continue
+        seen.add(e['model'])
+        names = list(ms[e['model']].__param_names__)
+        P = len(e['perm'])
+        others = [v for v in TIE_VARIANTS[1:] if tie_params(random.Random(0), names, v)[1] > 0]
+        if ctx.quick:
+            # (a 3-population swap group costs 0.2 - 0.9 s: in quick only the 'sizes' vector for those)
+            variants = ['sizes'] + ([others[rot % len(others)]] if others and P == 2 else [])
+            rot += 1
+        else:
+            variants = ['sizes'] + others
+        for v in variants:
+            p, forced = tie_params(rng, names, v)
+            if forced == 0:
+                continue
+            groups.append(dict(swap_group(e, names, p, rand_ns(rng, P)), tie=v))
+    seen_a = set()
+    for k, e in enumerate(table['nestings']):
+        if ctx.quick and e['A'] in seen_a:
+            continue
+        seen_a.add(e['A'])
+        P = ndim_of(e['A'], ms[e['A']])
+        na = list(ms[e['A']].__param_names__)
+        for v in ([TIE_VARIANTS[len(seen_a) % len(TIE_VARIANTS)]] if ctx.quick else TIE_VARIANTS):
+            if tie_params(random.Random(0), na, v)[1] == 0:
+                v = 'all'
+            pa, pb = nest_params(e, rng, wide='tie:' + v)
+            groups.append({'kind': 'nest', 'A': e['A'], 'B': e['B'], 'nesting': e['kind'], 'point': e['point'], 'pa': pa, 'pb': pb, 'ns': rand_ns(rng, P), 'pts': PTS[P],
+                           'tie': v})
+    for q, f in ms.items():
+        if is_mscore(f) or q in seen:
+            continue
+        names = list(f.__param_names__)
+        P = ndim_of(q, f)
+        for v in ('sizes', 'all'):
+            p, forced = tie_params(rng, names, v)
+            if forced:
+                break
+        else:
+            continue
+        fine = (not ctx.quick) or P <= 2
+        groups.append({'kind': 'model', 'model': q, 'params': p, 'ns': rand_ns(rng, P, even='inbreeding' in q), 'pts': PTS_FINE[P] if fine else PTS[P], 'fine': fine,
+                       'perturb': [], 'tie': v})
     return groups
 
 
@@ -785,6 +902,8 @@ def mutations(groups, traces):
 # run
 # --------------------------------------------------------------------------
 def describe(g):
+    if g.get('tie'):
+        return 'tied parameters (%s): %s' % (g['tie'], describe({k: v for k, v in g.items() if k != 'tie'}))
     if g['kind'] == 'model':
         return 'model %s params=%s ns=%s pts=%d' % (g['model'], g['params'], g['ns'], g['pts'])
     if g['kind'] == 'nest':
@@ -852,7 +971,7 @@ def run(ctx):
     cov['transitions'] += st['transitions']
     cov['traces_validated_against_impl'] = nevals
     cov['evaluations'] = nevals
-    cov['distinct_nontrivial'] = len({(g['kind'], site_of(g), json.dumps(g.get('point'), sort_keys=True), tuple(g.get('perm', ()))) for g in groups})
+    cov['distinct_nontrivial'] = len({(g['kind'], site_of(g), json.dumps(g.get('point'), sort_keys=True), tuple(g.get('perm', ())), g.get('tie')) for g in groups})
     cov['rule'] = ('one trace = one model evaluation under call proxies (begin, one event per primitive call, end); groups: every function exposing __param_names__ '
                    '(full clause set, every parameter perturbed in turn, arity probes), nesting pairs of the curated table (five documented kinds), label swaps at two '
                    'time-step scales, boundary groups (per model: integer-valued values as tuple of floats / numpy array of float64 / list with ints, all durations 0 as int and '
